@@ -70,8 +70,9 @@ def _names(expr: ast.AST) -> set[str]:
 def check_loops(ctx: Ctx) -> None:
     prog = ctx.prog
     scope = format_scope(ctx)
-    # loops elsewhere in the package terminate too (config search, ignore-file search): include every function
-    funcs = {**scope, **{q: f for q, f in ctx.repo.functions.items() if not f.name.startswith("test_")}}
+    # C12 is a statement about the formatter: only what reformat_text / fill_markdown can reach (plus the parser hooks of
+    # the custom elements) is in scope - the file resolver and config search have their own properties
+    funcs = dict(scope)
     n_loops = 0
     for fi in funcs.values():
         if isinstance(fi.node, ast.Lambda):
@@ -135,7 +136,7 @@ def check_loops(ctx: Ctx) -> None:
 def check_recursion(ctx: Ctx) -> None:
     prog = ctx.prog
     n_rec = 0
-    for fi in ctx.repo.functions.values():
+    for fi in format_scope(ctx).values():
         if isinstance(fi.node, ast.Lambda) or fi.name.startswith("test_"):
             continue
         flow = None
